@@ -123,7 +123,11 @@ def route_grammars(R):
                 R.Rule('Tagged2', R.Call(R.Ref('Parens'), [R.Left(R.Ref('Item'), R.Str(';'))]), params=['Item']),
                 # a `let` inside the body of a `let` of the same name: after the inner one ends, the name
                 # denotes the outer value again
-                R.Rule('L3', R.Let('x', R.Str('1'), R.Seq(R.Let('x', R.Str('2'), R.Py('x')), R.Py('x'))))]
+                R.Rule('L3', R.Let('x', R.Str('1'), R.Seq(R.Let('x', R.Str('2'), R.Py('x')), R.Py('x')))),
+                # a parameter that shadows a rule, re-bound by a `let` inside a template argument (a helper
+                # function of its own) that has ended before the parameter is used again
+                R.Rule('NS', R.Right(R.Call(R.Ref('Parens'), [R.Let('Item', R.Ref('Number'), R.Ref('Item'))]),
+                                     R.Ref('Item')), params=['Item'])]
     G.append(('shadow', shadow, {}))
 
     def deep():
